@@ -40,10 +40,12 @@ DoCollectPoint == \E obs \in Tables : Collect(obs) /\ hist' = Append(hist, act')
 Next == DoRecord \/ DoRegister \/ DoUnregister \/ DoCollectPoint
 Spec == Init /\ [][Next]_vars
 
-(* act and hist are history variables, hidden from the fingerprint.  TLC explores  *)
-(* breadth first and expands every distinct state once, so hist is the BFS-tree path *)
-(* to the source state of every edge: one EDGE line per Collect transition of the    *)
-(* state graph = (path to the source state, table the callbacks see at this point).  *)
+(* act and hist are history variables, hidden from the fingerprint.  TLC expands     *)
+(* every distinct state (modulo the view) once, so hist is the path by which that    *)
+(* state was first reached: one EDGE line per Collect transition of the state graph   *)
+(* = (a path to the source state, table the callbacks see at this point).  The check  *)
+(* runs TLC with the in-memory state queue (StateDeque): the order of exploration is  *)
+(* irrelevant, any path is a valid history.                                           *)
 (* The view also drops what cannot influence any later report of this aggregation    *)
 (* (the last report itself; the order inside a bag unless a gauge; the multiset       *)
 (* unless a histogram), so that the replayed histories are the observationally        *)
